@@ -82,6 +82,8 @@ def as_dt(v):
         return DT((b.d, tuple(v[1])))
     if isinstance(v, type) and v in (float, int, complex, bool, object):
         return DT(v)
+    if isinstance(v, _np.dtype):
+        return DT(v)
     raise Undecided('dtype %r' % (v,))
 
 
@@ -810,6 +812,8 @@ class NAHooks(Hooks):
             return Opaque('np.' + name)
         if name == 'linalg':
             return ModuleV('np.linalg')
+        if name == 'fft':
+            return ModuleV('np.fft')
         if name == 'ndarray':
             return Opaque('np.ndarray')
         if name == 'errstate':
@@ -964,6 +968,13 @@ class NAHooks(Hooks):
             return Builtin('np.linalg.norm',
                            lambda v, ord=None, **k: self.linalg_norm(
                                I, na_of(v), ord, **k))
+        if isinstance(obj, ModuleV) and obj.name == 'np.fft' and name in (
+                'fftn', 'ifftn', 'rfftn', 'irfftn', 'fft', 'ifft', 'rfft',
+                'irfft'):
+            return Builtin('np.fft.' + name, lambda v, s=None, axes=None,
+                           n=None, axis=-1, norm=None: self.np_fft(
+                               I, name, na_of(v), s if s is not None else n,
+                               axes if name.endswith('n') else axis, norm))
         if isinstance(obj, ModuleV) and obj.name == 'np.linalg' and \
                 name == 'svd':
             return Builtin('np.linalg.svd',
@@ -996,6 +1007,106 @@ class NAHooks(Hooks):
         if isinstance(obj, NA):
             return self.na_attr(I, obj, name)
         return NotImplemented
+
+    def np_fft(self, I, name, v, s, axes, norm):
+        """NumPy's FFT family, exactly, for axis lengths 1, 2 and 4 (the
+        roots of unity are +-1, +-i): unnormalised forward transforms,
+        1/n-normalised inverses, half-complex variants along the last
+        transformed axis."""
+        if norm is not None:
+            raise Undecided('np.fft with norm=')
+        a = self.ratify(v.a)
+        nd = a.ndim
+        if axes is None:
+            axes = list(range(nd)) if s is None else list(
+                range(nd - len(s), nd))
+        elif isinstance(axes, int):
+            axes = [axes]
+            if s is not None and not isinstance(s, (tuple, list)):
+                s = [s]
+        axes = [int(_const(ax)) % nd for ax in axes]
+        inverse = name.lstrip('r').startswith('i') or name.startswith('i')
+        real = name in ('rfftn', 'irfftn', 'rfft', 'irfft')
+        Iu = Rat.var('I')
+
+        def root(n, k, sign):
+            # exp(sign * 2 pi i k / n)
+            k = k % n
+            if n == 1 or k == 0:
+                return Rat.const(1)
+            if n == 2:
+                return Rat.const(-1)
+            if n == 4:
+                return [Rat.const(1), Iu * sign, Rat.const(-1),
+                        Iu * (-sign)][k]
+            raise Undecided('np.fft along an axis of length %d' % n)
+
+        def along(arr, ax, n_out, sign, scale, n_in=None):
+            arr = _np.moveaxis(arr, ax, -1)
+            n = arr.shape[-1] if n_in is None else n_in
+            out = _np.empty(arr.shape[:-1] + (n_out,), dtype=object)
+            for idx in _np.ndindex(*arr.shape[:-1]):
+                for k in range(n_out):
+                    tot = Rat.const(0)
+                    for j in range(n):
+                        tot = tot + arr[idx + (j,)] * root(n, j * k, sign)
+                    from . import posalg as PA
+                    out[idx + (k,)] = PA.ired(tot * scale)
+            return _np.moveaxis(out, -1, ax)
+        if s is not None:
+            if isinstance(s, NA):
+                s = s.a.ravel().tolist()
+            s = [int(_const(z)) for z in s]
+        if not inverse:
+            if v.dt.d.kind == 'c' and real:
+                raise PyRaise('TypeError')
+            for pos, ax in enumerate(reversed(axes)):
+                n = a.shape[ax]
+                if s is not None and s[len(axes) - 1 - pos] != n:
+                    raise Undecided('np.fft with padding / cropping (s=)')
+                n_out = n // 2 + 1 if (real and pos == 0) else n
+                a = along(a, ax, n_out, -1, Rat.const(1))
+        else:
+            for pos, ax in enumerate(axes):
+                last = pos == len(axes) - 1
+                n_in = a.shape[ax]
+                if real and last:
+                    n = s[pos] if s is not None else 2 * (n_in - 1)
+                    # Hermitian completion of the half spectrum (the
+                    # imaginary parts of the self-conjugate entries are
+                    # dropped, like NumPy does)
+                    from . import posalg as PA
+                    arr = _np.moveaxis(a, ax, -1)
+                    full = _np.empty(arr.shape[:-1] + (n,), dtype=object)
+                    for idx in _np.ndindex(*arr.shape[:-1]):
+                        for k in range(n):
+                            if k < n_in and k <= n // 2:
+                                z = arr[idx + (k,)]
+                                if k == 0 or 2 * k == n:
+                                    z = PA.real_part(z)
+                            elif n - k < n_in:
+                                z = PA.conj(arr[idx + (n - k,)])
+                            else:
+                                z = Rat.const(0)
+                            full[idx + (k,)] = z
+                    a = _np.moveaxis(full, -1, ax)
+                    a = along(a, ax, n, +1, Rat.const(1) / n)
+                else:
+                    n = a.shape[ax]
+                    if s is not None and s[pos] != n:
+                        raise Undecided('np.fft with padding / cropping '
+                                        '(s=)')
+                    a = along(a, ax, n, +1, Rat.const(1) / n)
+        if inverse and real:
+            from . import posalg as PA
+            a = _np.frompyfunc(PA.real_part, 1, 1)(a)
+            dt = DT('float32' if v.dt.d == _np.dtype('complex64')
+                    else 'float64')
+        else:
+            dt = DT('complex64' if v.dt.d in (_np.dtype('float32'),
+                                              _np.dtype('complex64'))
+                    else 'complex128')
+        return NA(a, dt)
 
     def linalg_svd(self, I, v, full_matrices=True, compute_uv=True):
         """Singular value decomposition of stacks of 2 x 2 real matrices.
